@@ -11,6 +11,10 @@
 //                        p<k> co_await <harness event k> | f<k> co_await <cocls::future k> | g construct a RAII guard local |
 //                        t throw | x co_return          (falling off the end = co_return)
 //   next [a]             bool(gen.next(a))                         -> next true|false|nomore
+//   nnext [a]            !gen.next(a) (next_awt::operator!)          -> nnext true|false|nomore   (the negation is undone: same answers as next)
+//   active               bool(gen) (generator::operator bool)      -> active 1|0
+//   while [a]            while (gen) { if (!gen.next(a++)) break; gen.value(); }   -> while v:1 v:2 end | ... exc | nomore
+//   getid                gen.get_id() is non-null and never changes -> getid ok
 //   value                gen.value()                               -> value v:<n>|exc|notready
 //   anext [a]            consumer coroutine: co_await gen.next(a)  -> anext ; anext=true|false|nomore (event, maybe on a later line)
 //   sub [a]              gen.next(a).subscribe(&cb): a callback awaiter (like generator_aggregator's GenCallback) is notified; the callback
@@ -21,6 +25,7 @@
 //   fwait | fget         f.wait() (blocking) | non-blocking peek   -> fwait v:<n>|exc|novalue|pending
 //   fawait | fhas        consumer coroutine: co_await f | co_await f.has_value()   -> events fawait=... / fhas=true|false
 //   begin | inc | deref | isend | pinc       it = gen.begin(); ++it; *it; it == gen.end(); it++
+//   beginc | arrow       it = generator_iterator(gen) (the advancing constructor); *it.operator->()
 //   for                  for (int &v : gen) ...                    -> for v:1 v:2 end | ... exc | nomore
 //   complete <k> | tcomplete <k>             awaited operation k finishes, on the consumer thread | on a second thread (joined)
 //   destroy              destroy the generator object              -> destroy
@@ -378,6 +383,7 @@ struct Case {
     std::atomic<bool> stuck{false};        // co_await gen.next() threw no_more_values (next_async keeps _caller set)
     std::atomic<bool> reader{false};       // a consumer coroutine awaits the current future
     bool gone = false;
+    const void *first_id = nullptr;
 
     // the consumer's callback awaiter (one per case; `_caller` points at it while a subscribe access is outstanding)
     struct Cb : awaiter {
@@ -476,11 +482,14 @@ struct Case {
     }
 
     // bool(gen.next(a)) on the consumer thread, the helper thread serving awaited operations
-    std::string sync_next(int *argp) {
+    std::string sync_next(int *argp, bool negated = false) {
         Blocking blk;
         try {
             bool b;
-            if constexpr (has_arg) b = bool(gen->next(*argp));
+            if (negated) {   // next_awt::operator!
+                if constexpr (has_arg) b = !(!gen->next(*argp));
+                else b = !(!gen->next());
+            } else if constexpr (has_arg) b = bool(gen->next(*argp));
             else b = bool(gen->next());
             return b ? "true" : "false";
         } catch (const no_more_values_exception &) {
@@ -570,6 +579,26 @@ struct Case {
             } else if (op == "value") {
                 if (inflight()) head << " busy";
                 else head << " " << value_str();
+            } else if (op == "active") {
+                if (inflight()) head << " busy";
+                else head << " " << (*gen ? 1 : 0);
+            } else if (op == "getid") {
+                const void *id = gen->get_id();
+                if (!first_id) first_id = id;
+                head << (id == nullptr ? " null" : id == first_id ? " ok" : " changed");
+            } else if (op == "arrow") {
+                if (!it) head << " noit";
+                else if (inflight()) head << " busy";
+                else {
+                    try {
+                        int *pv = it->operator->();
+                        head << " v:" << *pv;
+                    } catch (const test_exc &) {
+                        head << " exc";
+                    } catch (const value_not_ready_exception &) {
+                        head << " notready";
+                    }
+                }
             } else if (op == "deref") {
                 if (!it) head << " noit";
                 else if (inflight()) head << " busy";
@@ -598,6 +627,33 @@ struct Case {
                 head << " busy";
             } else if (op == "next") {
                 head << " " << sync_next(&arg_of(w));
+            } else if (op == "nnext") {
+                head << " " << sync_next(&arg_of(w), true);
+            } else if (op == "while") {
+                Blocking blk;
+                int a = w.size() > 1 ? atoi(w[1].c_str()) : 0;
+                try {
+                    while (*gen) {
+                        bool stop;
+                        if constexpr (has_arg) {
+                            ev("arg=" + std::to_string(a));
+                            args.push_back(a++);
+                            stop = !gen->next(args.back());
+                        } else {
+                            stop = !gen->next();
+                        }
+                        if (stop) break;
+                        int &v = gen->value();
+                        head << " v:" << v;
+                    }
+                    head << " end";
+                } catch (const test_exc &) {
+                    head << " exc";
+                } catch (const no_more_values_exception &) {
+                    head << " nomore";
+                } catch (const value_not_ready_exception &) {
+                    head << " notready";
+                }
             } else if (op == "anext") {
                 parked.store(true);
                 c_anext(&arg_of(w));
@@ -621,13 +677,17 @@ struct Case {
                 } catch (const no_more_values_exception &) {
                     head << " nomore";
                 }
-            } else if (op == "begin" || op == "inc" || op == "pinc" || op == "for") {
+            } else if (op == "begin" || op == "beginc" || op == "inc" || op == "pinc" || op == "for") {
                 if constexpr (has_arg) {
                     head << " n/a";
-                } else if (op == "begin") {
+                } else if (op == "begin" || op == "beginc") {
                     Blocking blk;
                     try {
-                        it.emplace(gen->begin());
+                        if (op == "begin") it.emplace(gen->begin());
+                        else {   // generator_iterator(Generator &): advances like begin() (built aside: a throw must not lose `it`)
+                            typename G::iterator fresh(*gen);
+                            it.emplace(fresh);
+                        }
                         head << " " << (*it != gen->end() ? "true" : "false");
                     } catch (const no_more_values_exception &) {
                         head << " nomore";
